@@ -618,11 +618,23 @@ def run_c17(ctx, model, focus="C17"):
         next(d._sequence)
     n = 140000 if ctx.tier == "thorough" else 900
     for i in range(n):
-        d.generic_message(service=1, class_code=0x70, instance=1, connected=True, name="g")
+        try:
+            d.generic_message(service=1, class_code=0x70, instance=1, connected=True, name="g")
+        except BaseException as e:  # noqa
+            if isinstance(e, (KeyboardInterrupt, SystemExit)):
+                raise
+            # a healthy target answers every well-formed connected request: the call has no reason to raise
+            ctx.violation("connected-message-raises-on-a-healthy-target:" + core.exn_class(e),
+                          {"history": "open, counter advanced by %d, connected generic message number %d" % (skip, i), "focus": focus,
+                           "last_frame": shared.frames[-1].hex()[:160] if shared.frames else None}, repr(e)[:200])
+            break
         if i % 5000 == 0:
             model.ask("target.log")          # keep the target's event log short
     log = model.ask("target.log")
-    d.close()
+    try:
+        d.close()
+    except Exception:  # noqa
+        pass
     frames = [f for f in shared.frames if f[:2] == b"\x70\x00"]
     if focus == "C11":
         # every connected frame of the history, also the ones around the wrap of the 16-bit counter: header + address item +
